@@ -79,7 +79,7 @@ def main() -> int:
         part = obs[off : off + chunk]
         pp = ck.work / "obs_part.json"
         core.write_json(pp, [{"id": o["id"], "e": o["e"], "acc": o["acc"], "py": o["py"]} for o in part])
-        res = ck.tlc("ExprTrace", what="V: Eval = CPython (S) and the clauses on accepted trees", env={"VERIF_OBS": str(pp)}, cont=True, workers=8, timeout=1500)
+        res = ck.tlc("ExprTrace", what="V: Eval = CPython (S) and the clauses on accepted trees", env={"VERIF_OBS": str(pp)}, cont=True, workers=4, timeout=1500)
         if res.distinct != 2 * len(part):
             raise core.MachineryFailure("TLC consumed %d of %d observations" % (res.distinct // 2, len(part)))
         for v in step_violations(res.stdout):
